@@ -35,6 +35,7 @@ macro_rules! snapshot_decision {
             dt.insertion_state.delaunay_check_policy = cp;
             dt.insertion_state.delaunay_repair_insertion_count = count;
             let (nc, nv): (usize, usize) = (kani::any(), kani::any());
+            kani::assume(nv < usize::MAX); // vertex count of a real triangulation
             NCELLS.store(nc, AOrd::Relaxed);
             NVERTS.store(nv, AOrd::Relaxed);
             let snapshot_needed = dt.$slice();
